@@ -24,7 +24,7 @@ PROPS = {
              "(fold elements compared order-insensitively but aligned across outputs), with the naive reference evaluator R. "
              "distinct_nontrivial = distinct directive skeletons among compared cases with >= 1 row and >= 2 language features",
              quick={"cases": 3000, "timeout": 300},
-             thorough={"cases": 120000, "timeout": 1800},
+             thorough={"cases": 240000, "timeout": 2700},
              floors={"evaluations": 2000, "distinct": 200, "counters": {"compared_with_rows": 500}},
              technique="reference-model runtime monitor (differential against a naive declarative evaluator)"),
     "C02": P("exploration",
@@ -33,7 +33,7 @@ PROPS = {
              "row *sequences* must be identical and no panic may occur. An EventLog at the adapter boundary records pull-in/yield-out events; "
              "distinct_nontrivial = distinct interleavings (hash of the event-kind sequence) observed",
              quick={"cases": 2000, "timeout": 300, "args": ["--schedules", "5"]},
-             thorough={"cases": 20000, "timeout": 1800, "args": ["--schedules", "15"]},
+             thorough={"cases": 100000, "timeout": 2700, "args": ["--schedules", "15"]},
              floors={"evaluations": 1000, "distinct": 500, "counters": {"cases_with_3_or_more_resolver_calls": 300}},
              technique="metamorphic runtime monitor over adapter pull schedules, event log at the adapter boundary"),
     "C03": P("exploration",
@@ -41,7 +41,7 @@ PROPS = {
              "*every* next(): nothing pulled before the first row is requested; pulled <= index of the contributing start vertex + 1; and no "
              "adapter-boundary event after the result iterator is dropped at a prefix. distinct_nontrivial = distinct (skeleton, #starts) with >= 2 rows and >= 3 starts",
              quick={"cases": 6000, "timeout": 300},
-             thorough={"cases": 40000, "timeout": 1800, "args": ["--max-vertices", "40"]},
+             thorough={"cases": 200000, "timeout": 2700, "args": ["--max-vertices", "40"]},
              floors={"evaluations": 1000, "distinct": 100, "counters": {"prefixes_checked": 1000, "early_drops_checked": 100}},
              technique="counting monitor at the data source (adapter boundary), checked at every prefix of the result stream"),
     "C04": P("exploration",
@@ -51,7 +51,7 @@ PROPS = {
              "(membership decided by the harness's own candidate model); row sequences must be identical. '>=' with a tag operand is excluded from the "
              "random stream and replayed from its committed witnesses (listed known finding). distinct_nontrivial = distinct skeletons of cases in which pruning removed >= 1 vertex",
              quick={"cases": 10000, "timeout": 300},
-             thorough={"cases": 80000, "timeout": 1800},
+             thorough={"cases": 400000, "timeout": 2700},
              floors={"evaluations": 2000, "distinct": 200, "counters": {"vertices_pruned": 1000, "hint:dynamic:Range": 50, "hint:mandatory-edge": 200}},
              technique="metamorphic runtime monitor with an adversarially eager hint-consuming adapter"),
     "C05": P("exploration",
@@ -59,7 +59,7 @@ PROPS = {
              "resolve_property(type, p, info) that p is in info.required_properties() and in every list reported earlier for the same Vid "
              "(ResolveInfo of resolve_starting_vertices / resolve_coercion, ResolveEdgeInfo::destination()). distinct_nontrivial = distinct skeletons with >= 3 property calls",
              quick={"cases": 6000, "timeout": 300},
-             thorough={"cases": 60000, "timeout": 1800},
+             thorough={"cases": 300000, "timeout": 2700},
              floors={"evaluations": 2000, "distinct": 200, "counters": {"resolve_property_calls_checked": 20000}},
              technique="invariant monitor at the adapter boundary"),
     "C09": P("exploration",
@@ -67,7 +67,7 @@ PROPS = {
              "every accepted (query, arguments) is executed to exhaustion under catch_unwind with a panic hook; a second pass runs in plain release "
              "(no debug assertions) in the thorough tier; worker aborts are attributed to the announced case. distinct_nontrivial = distinct skeletons executed",
              quick={"cases": 10000, "timeout": 300, "plainrel": 4000},
-             thorough={"cases": 150000, "timeout": 1800, "plainrel": 40000},
+             thorough={"cases": 450000, "timeout": 2700, "plainrel": 40000},
              floors={"evaluations": 5000, "distinct": 500, "counters": {"executed_ok": 4000}},
              crash_is_violation=True,
              technique="panic monitor (catch_unwind + panic hook + worker-crash detection) over a hostile workload"),
@@ -78,7 +78,7 @@ PROPS = {
              "duplicates, variables recorded with compatible types and equal to the harness's independent derivation, outputs unique and local). "
              "distinct_nontrivial = distinct skeletons with >= 2 features",
              quick={"cases": 12500, "timeout": 300},
-             thorough={"cases": 150000, "timeout": 1800},
+             thorough={"cases": 600000, "timeout": 2700},
              floors={"evaluations": 5000, "distinct": 500, "counters": {"compiled_queries_checked": 4000}},
              technique="structural invariant monitor on every compiled query"),
     "C12": P("exploration",
@@ -87,7 +87,7 @@ PROPS = {
              "(all declared supplied and fits(declared type, value), no undeclared name) with the harness's own fits(), and the error must name exactly "
              "the offending variables. distinct_nontrivial = distinct variable-type signatures with both accepted and refused maps",
              quick={"cases": 3000, "timeout": 300},
-             thorough={"cases": 50000, "timeout": 1800},
+             thorough={"cases": 250000, "timeout": 2700},
              floors={"evaluations": 2000, "distinct": 100, "counters": {"argument_maps_checked": 50000, "maps_accepted": 2000}},
              technique="reference-model runtime monitor on argument validation"),
     "C13": P("exploration",
@@ -96,7 +96,7 @@ PROPS = {
              "row's key set must equal the declared names and every value must fit its declared type (own fits()). distinct_nontrivial = distinct "
              "skeletons with rows and >= 1 nullable or folded output",
              quick={"cases": 6000, "timeout": 300, "plainrel": 3000},
-             thorough={"cases": 100000, "timeout": 1800, "plainrel": 50000},
+             thorough={"cases": 300000, "timeout": 2700, "plainrel": 50000},
              floors={"evaluations": 5000, "distinct": 300, "counters": {"rows_checked": 20000}},
              technique="invariant monitor on every result row"),
     "C15": P("exploration",
@@ -104,7 +104,7 @@ PROPS = {
              "repository's trace format) and back and must be identical; assert_interpreted_results replays the deserialised trace to the same rows "
              "with the dataset out of reach. distinct_nontrivial = distinct skeletons with >= 10 trace ops and >= 1 row",
              quick={"cases": 500, "timeout": 300},
-             thorough={"cases": 25000, "timeout": 1800},
+             thorough={"cases": 75000, "timeout": 2700},
              floors={"evaluations": 2000, "distinct": 200, "counters": {"trace_ops_replayed": 100000}},
              technique="round-trip runtime monitor (record, serialise, replay)"),
     "C21": P("exploration",
@@ -113,7 +113,7 @@ PROPS = {
              "source is an interface and target implements it, parameter names exactly the declared ones with fitting values) and every context pulled "
              "(active vertex is an instance of type_name). distinct_nontrivial = distinct skeletons with >= 4 adapter calls",
              quick={"cases": 5000, "timeout": 300},
-             thorough={"cases": 80000, "timeout": 1800},
+             thorough={"cases": 400000, "timeout": 2700},
              floors={"evaluations": 3000, "distinct": 300, "counters": {"adapter_calls_checked": 50000, "contexts_checked": 50000}},
              technique="invariant monitor at the adapter boundary"),
     "C22": P("exploration",
@@ -122,7 +122,7 @@ PROPS = {
              "(ii) metamorphic: Q vs Q+ which additionally outputs every fold's count and an inner value - projecting the new outputs away the rows must "
              "be identical. distinct_nontrivial = distinct skeletons with count filters and >= 1 row",
              quick={"cases": 40000, "timeout": 400, "plainrel": 8000},
-             thorough={"cases": 300000, "timeout": 2400, "plainrel": 60000},
+             thorough={"cases": 600000, "timeout": 2400, "plainrel": 60000},
              floors={"evaluations": 5000, "distinct": 150, "counters": {"queries_with_count_filters": 4000, "with_nested_folds": 1000}},
              technique="reference-model + metamorphic runtime monitor"),
     "C23": P("exploration",
@@ -131,7 +131,7 @@ PROPS = {
              "edges when no tags) each applied only where the declarative semantics entails it; engine vs engine on row multisets; a pair on which R "
              "also breaks the relation is counted as a relation-scope bug of the harness, never as a violation. distinct_nontrivial = distinct (relation, skeleton) pairs with rows",
              quick={"cases": 1000, "timeout": 400},
-             thorough={"cases": 15000, "timeout": 1800},
+             thorough={"cases": 60000, "timeout": 2700},
              floors={"evaluations": 2000, "distinct": 500, "counters": {"pairs_checked": 5000, "held-with-rows:raise-recurse-depth": 30,
                                                                           "held-with-rows:param-edge-as-filter": 30, "held-with-rows:make-optional": 30}},
              technique="metamorphic runtime monitor"),
@@ -145,7 +145,7 @@ PROPS["C06"] = P("exploration",
     "set-theoretic expectation using the harness's own value order. quick samples pairs; thorough takes the full product (exhaustive over the "
     "domain). distinct_nontrivial = distinct candidates / pairs touched",
     quick={"cases": 150000, "timeout": 300},
-    thorough={"cases": 0, "timeout": 1800, "args": ["--exhaustive", "1", "--slice", "{i}", "--of", "{n}"]},
+    thorough={"cases": 0, "timeout": 2700, "args": ["--exhaustive", "1", "--slice", "{i}", "--of", "{n}"]},
     floors={"evaluations": 100000, "distinct": 500},
     technique="reference-model runtime monitor through a guarded hook (set-membership oracle)")
 PROPS["C07"] = P("exploration",
@@ -156,7 +156,7 @@ PROPS["C07"] = P("exploration",
     "route A: a 169-vertex grid of operand pairs is queried end-to-end once per operator with the right operand as a @tag (slow path) and per "
     "value as a $variable (static / precompiled-regex path) for all 20 operators incl. every negation; the kept vertex set must equal the definition",
     quick={"cases": 120000, "timeout": 300, "args": ["--slice", "{i}", "--variable-values", "6"]},
-    thorough={"cases": 3000000, "timeout": 1800, "args": ["--slice", "{i}", "--variable-values", "40"]},
+    thorough={"cases": 3000000, "timeout": 2700, "args": ["--slice", "{i}", "--variable-values", "40"]},
     floors={"evaluations": 500000, "distinct": 50, "counters": {"grid_queries_tag_route": 50, "grid_queries_variable_route": 200}},
     technique="reference-model runtime monitor (direct calls through a guarded hook + end-to-end operand grids)")
 PROPS["C08"] = P("exploration",
@@ -164,7 +164,7 @@ PROPS["C08"] = P("exploration",
     "subnormals, strings, enums, nested and mixed lists) - exhaustive for the pool - plus random triples: == reflexive/symmetric/transitive, "
     "partial_cmp total/antisymmetric/transitive, a==b <=> cmp=Equal, equal values order alike, integers by i128 value, lists lexicographic",
     quick={"cases": 300000, "timeout": 300, "args": ["--slice", "{i}", "--of", "{n}"]},
-    thorough={"cases": 20000000, "timeout": 1800, "args": ["--slice", "{i}", "--of", "{n}"]},
+    thorough={"cases": 20000000, "timeout": 2700, "args": ["--slice", "{i}", "--of", "{n}"]},
     floors={"evaluations": 216000, "distinct": 60},
     exhaustive=True,
     technique="law monitor on the public API (exhaustive over a boundary pool + random)")
@@ -175,7 +175,7 @@ PROPS["C16"] = P("exploration",
     "and IndexedQuery of the query stream through RON and JSON. The harness depends on serde_json with default features only, so it observes "
     "the feature set trustfall_core itself selects",
     quick={"cases": 32000, "timeout": 300, "args": ["--slice", "{i}"]},
-    thorough={"cases": 1500000, "timeout": 1800, "args": ["--slice", "{i}"]},
+    thorough={"cases": 1500000, "timeout": 2700, "args": ["--slice", "{i}"]},
     floors={"evaluations": 50000, "distinct": 300, "counters": {"value-kind:Float64": 20000, "roundtrip-ok:indexedquery-ron": 1000}},
     technique="round-trip runtime monitor")
 PROPS["C17"] = P("exploration",
@@ -196,7 +196,7 @@ PROPS["C18"] = P("exploration",
     "(own): integer fits the target range => Ok(exact) else Err; f64 exact; f32 when representable; tuple arity; null only into Option; "
     "int->float and non-representable f32 are left unspecified. distinct_nontrivial = distinct value classes",
     quick={"cases": 900, "timeout": 300},
-    thorough={"cases": 20000, "timeout": 1800},
+    thorough={"cases": 40000, "timeout": 2700},
     floors={"evaluations": 100000, "distinct": 10, "counters": {"decoded_exactly": 10000, "refused_as_expected": 50000}},
     technique="reference-model runtime monitor on the deserialisation entry points")
 PROPS["C10"] = P("exploration",
@@ -208,7 +208,7 @@ PROPS["C10"] = P("exploration",
     "noise incl. NUL, BOM, RTL override and astral characters. Nesting <= 24 and length <= 8 KiB. frontend::parse runs under catch_unwind; "
     "worker aborts are attributed to the announced text. distinct_nontrivial = distinct (schema, directive-sequence) shapes sampled + distinct error kinds returned",
     quick={"cases": 60000, "timeout": 300},
-    thorough={"cases": 1500000, "timeout": 1800},
+    thorough={"cases": 3000000, "timeout": 2700},
     floors={"evaluations": 100000, "distinct": 100, "counters": {"rejected": 50000, "accepted": 1000}},
     crash_is_violation=True,
     technique="panic monitor over generative text fuzzing (catch_unwind + worker-crash detection)")
@@ -221,7 +221,7 @@ PROPS["C19"] = P("exploration",
     "empty document; Schema::parse runs under catch_unwind and accept/reject must equal a reference validator implementing the documented "
     "rules over the document model (error kinds compared informationally). distinct_nontrivial = distinct sets of broken rules observed",
     quick={"cases": 4000, "timeout": 300},
-    thorough={"cases": 200000, "timeout": 1800},
+    thorough={"cases": 600000, "timeout": 2700},
     floors={"evaluations": 20000, "distinct": 150, "counters": {"accepted_valid": 3000, "rejected_invalid": 10000}},
     crash_is_violation=True,
     technique="reference-model + panic monitor over mutated schema documents")
@@ -233,7 +233,7 @@ PROPS["C20"] = P("exploration",
     "ContractMonitor (with the harness's model of the meta-schema) plain and under a read-ahead wrapper; and "
     "check_adapter_invariants(meta_schema, SchemaAdapter). distinct_nontrivial = distinct schema shapes",
     quick={"cases": 100, "timeout": 300},
-    thorough={"cases": 1500, "timeout": 1800},
+    thorough={"cases": 4500, "timeout": 2700},
     floors={"evaluations": 2000, "distinct": 10, "counters": {"rows_compared": 10000, "contract_calls_checked": 20000, "invariant_checker_passed": 100}},
     technique="reference-model runtime monitor + contract monitor at the adapter boundary")
 PROPS["C25"] = P("fault_enumeration",
@@ -244,7 +244,7 @@ PROPS["C25"] = P("fault_enumeration",
     "undocumented sites/faults (edges with required parameters, dropping a context) are enumerated and recorded only. Exhaustive over sites "
     "per schema. distinct_nontrivial = distinct (site kind, fault) combinations and schema sizes",
     quick={"cases": 12, "timeout": 300},
-    thorough={"cases": 120, "timeout": 1800},
+    thorough={"cases": 360, "timeout": 2700},
     floors={"evaluations": 3000, "distinct": 12, "counters": {"documented_fault_caught": 3000, "fault_free_runs_passed": 16}},
     technique="fault injection at the adapter boundary, exhaustive over documented sites per schema")
 PROPS["C14"] = P("exploration",
@@ -254,7 +254,7 @@ PROPS["C14"] = P("exploration",
     "(std's RandomState is seeded per process): the driver compares the per-case digests of all processes. distinct_nontrivial = distinct "
     "skeletons of executed cases with rows",
     quick={"cases": 1500, "timeout": 400, "workers": 8},
-    thorough={"cases": 6000, "timeout": 1800, "workers": 16},
+    thorough={"cases": 12000, "timeout": 2700, "workers": 16},
     floors={"evaluations": 200, "distinct": 50},
     technique="event-log comparison across repetitions and across processes")
 
@@ -777,8 +777,8 @@ def fuzzed_driver(target):
     return drv
 
 
-PROPS["C10"]["thorough"]["fuzz_seconds"] = 180
-PROPS["C19"]["thorough"]["fuzz_seconds"] = 120
+PROPS["C10"]["thorough"]["fuzz_seconds"] = 300
+PROPS["C19"]["thorough"]["fuzz_seconds"] = 240
 PROPS["C10"]["technique"] = "panic monitor over generative text fuzzing (catch_unwind + worker-crash detection); thorough adds coverage-guided libFuzzer+ASan with artifacts re-judged by the same monitor"
 PROPS["C19"]["technique"] = "reference-model + panic monitor over mutated schema documents; thorough adds coverage-guided libFuzzer+ASan (panic part) with artifacts re-judged by the same monitor"
 CUSTOM = {"C14": c14_driver, "C24": c24_driver, "C26": c26_driver, "C27": c27_driver, "C10": fuzzed_driver("c10_frontend"), "C19": fuzzed_driver("c19_schema")}
